@@ -536,5 +536,191 @@ theorem scanLoop_announced (cfg : ScanCfg) (s : ScanSt) (pk : List Packet) (ms :
   | case3 s pk ms s1 m p h hg =>
     have := loadCdp_announced cfg s; rw [h] at this; exact hms.trans this
 
+/-! ### on a well-framed input the scanner raises no alarm -/
+
+/-- scanner messages that are neither an error, nor fatal, nor one of the flushed counters; an
+    announced system id satisfies `V` (the caller's "known system id") -/
+def _root_.FastPasta.InMsg.benign (V : Nat → Bool) : InMsg → Bool
+  | .link _ | .fee _ | .runTrigger _ | .dataFormat _ => true
+  | .systemId v => V v
+  | _ => false
+
+def AllBenign (V : Nat → Bool) (l : List InMsg) : Prop := ∀ m ∈ l, m.benign V = true
+theorem AllBenign.nil {V : Nat → Bool} : AllBenign V [] := by intro m hm; simp at hm
+theorem AllBenign.append {V : Nat → Bool} {a b : List InMsg} (ha : AllBenign V a) (hb : AllBenign V b) : AllBenign V (a ++ b) := by
+  intro m hm
+  simp only [List.mem_append] at hm
+  rcases hm with hm | hm
+  · exact ha m hm
+  · exact hb m hm
+
+theorem seeMsgs_benign (V : Nat → Bool) (s : ScanSt) (r : Rdh) : AllBenign V (s.seeMsgs r) := by
+  intro m hm
+  simp only [ScanSt.seeMsgs, List.mem_append] at hm
+  rcases hm with hm | hm <;> (split at hm <;> simp at hm; subst hm; rfl)
+
+theorem filterLoop_benign (V : Nat → Bool) (src : Src) (t : Filter) (ps : List RawPkt) (hwf : ∀ p ∈ ps, WF p)
+    (tail : Bytes) (htail : tail.length < 64) :
+    ∀ (s : ScanSt) (acc : List InMsg), s.rest = bytesOf ps ++ tail → AllBenign V acc →
+      AllBenign V (filterLoop src t s acc).2.1 := by
+  induction ps with
+  | nil =>
+    intro s acc hs hacc
+    simp only [bytesOf, List.flatMap_nil, List.nil_append] at hs
+    rw [filterLoop]
+    simp only [hs, htail, ↓reduceDIte]
+    exact hacc
+  | cons p ps ih =>
+    intro s acc hs hacc
+    have hp := hwf p (by simp)
+    rw [bytesOf_cons, List.append_assoc, List.append_assoc] at hs
+    obtain ⟨ht, hd, hl⟩ := take_hdr p hp (p.payload ++ (bytesOf ps ++ tail))
+    rw [filterLoop]
+    simp only [hs, hl, ↓reduceDIte, ht, hd]
+    have hok := offsetOk_of_wf p hp
+    simp only [RawPkt.rdh] at hok
+    simp only [hok, Bool.not_true, Bool.false_eq_true, ↓reduceIte]
+    by_cases hm : t.matches (decodeRdh p.hdr) = true
+    · simp only [hm, ↓reduceIte]
+      exact hacc.append (seeMsgs_benign V _ _)
+    · have hoff : (decodeRdh p.hdr).offsetNext = 64 + p.payload.length := hp.off
+      have hseek : seekOk src (ScanSt.seeRdh { s with rest := p.payload ++ (bytesOf ps ++ tail) } (decodeRdh p.hdr))
+          (decodeRdh p.hdr).offsetNext = true := by
+        cases src <;> simp [seekOk, ScanSt.seeRdh, hoff]
+      simp only [hm, Bool.false_eq_true, ↓reduceIte, hseek, Bool.not_true]
+      have hrest : (seekNext (ScanSt.seeRdh { s with rest := p.payload ++ (bytesOf ps ++ tail) } (decodeRdh p.hdr))
+          (decodeRdh p.hdr).offsetNext).rest = bytesOf ps ++ tail := by
+        simp [seekNext, ScanSt.seeRdh, hoff]
+      exact ih (fun q hq => hwf q (by simp [hq])) _ _ hrest (hacc.append (seeMsgs_benign V _ _))
+
+theorem loadRdh_benign (V : Nat → Bool) (cfg : ScanCfg) (ps : List RawPkt) (hwf : ∀ p ∈ ps, WF p)
+    (hV : ∀ p ∈ ps, V p.rdh.systemId = true)
+    (tail : Bytes) (htail : tail.length < 64) (s : ScanSt) (hs : s.rest = bytesOf ps ++ tail) :
+    AllBenign V (loadRdh cfg s).2.1 := by
+  cases ps with
+  | nil =>
+    simp only [bytesOf, List.flatMap_nil, List.nil_append] at hs
+    simp only [loadRdh, hs, htail, ↓reduceIte]
+    exact AllBenign.nil
+  | cons p ps =>
+    have hp := hwf p (by simp)
+    rw [bytesOf_cons, List.append_assoc, List.append_assoc] at hs
+    obtain ⟨ht, hd, hl⟩ := take_hdr p hp (p.payload ++ (bytesOf ps ++ tail))
+    have hok := offsetOk_of_wf p hp
+    simp only [RawPkt.rdh] at hok
+    have hoff : (decodeRdh p.hdr).offsetNext = 64 + p.payload.length := hp.off
+    have hVp : V (decodeRdh p.hdr).systemId = true := hV p (by simp)
+    have hm0 : AllBenign V (if s.pos == 0 then [InMsg.runTrigger (decodeRdh p.hdr).triggerType,
+        .dataFormat (decodeRdh p.hdr).dataFormat, .systemId (decodeRdh p.hdr).systemId] else []) := by
+      intro m hm
+      split at hm
+      · simp only [List.mem_cons, List.not_mem_nil, or_false] at hm
+        rcases hm with rfl | rfl | rfl
+        · rfl
+        · rfl
+        · exact hVp
+      · simp at hm
+    have hm1 : AllBenign V (ScanSt.seeMsgs { s with rest := p.payload ++ (bytesOf ps ++ tail) } (decodeRdh p.hdr)) := seeMsgs_benign V _ _
+    unfold loadRdh
+    simp only [hs, hl, ↓reduceIte, ht, hd, hok, Bool.not_true, Bool.false_eq_true]
+    cases hf : cfg.filter with
+    | none => simp only; exact (hm0.append hm1).append AllBenign.nil
+    | some t =>
+      by_cases hmt : t.matches (decodeRdh p.hdr) = true
+      · simp only [hmt, ↓reduceIte]; exact (hm0.append hm1).append AllBenign.nil
+      · have hseek : seekOk cfg.src (ScanSt.seeRdh { s with rest := p.payload ++ (bytesOf ps ++ tail) } (decodeRdh p.hdr))
+            (decodeRdh p.hdr).offsetNext = true := by
+          cases cfg.src <;> simp [seekOk, ScanSt.seeRdh, hoff]
+        have hrest : (seekNext (ScanSt.seeRdh { s with rest := p.payload ++ (bytesOf ps ++ tail) } (decodeRdh p.hdr))
+            (decodeRdh p.hdr).offsetNext).rest = bytesOf ps ++ tail := by
+          simp [seekNext, ScanSt.seeRdh, hoff]
+        have := filterLoop_benign V cfg.src t ps (fun q hq => hwf q (by simp [hq])) tail htail _ [] hrest AllBenign.nil
+        simp only [hmt, hseek, Bool.false_eq_true, ↓reduceIte, Bool.not_true]
+        generalize filterLoop cfg.src t _ [] = x at this
+        obtain ⟨x1, x2, x3⟩ := x
+        cases x3 <;> exact (hm0.append hm1).append this
+
+theorem loadCdp_benign (V : Nat → Bool) (cfg : ScanCfg) (ps : List RawPkt) (hwf : ∀ p ∈ ps, WF p)
+    (hV : ∀ p ∈ ps, V p.rdh.systemId = true)
+    (tail : Bytes) (htail : tail.length < 64) (s : ScanSt) (hs : s.rest = bytesOf ps ++ tail) :
+    AllBenign V (loadCdp cfg s).2.1 := by
+  have hb := loadRdh_benign V cfg ps hwf hV tail htail s hs
+  have h := loadRdh_spec cfg ps hwf tail htail s hs
+  generalize hfm : firstMatch cfg.filter s.pos ps = fm at h
+  unfold loadCdp
+  generalize loadRdh cfg s = r at h hb
+  obtain ⟨s1, m, res⟩ := r
+  cases fm with
+  | none =>
+    simp only at h
+    subst h
+    exact hb
+  | some x =>
+    obtain ⟨o', p, post⟩ := x
+    simp only at h
+    obtain ⟨h1, h2, h3⟩ := h
+    subst h1
+    have hp : WF p := hwf p (firstMatch_mem _ ps _ _ _ _ hfm).1
+    have hoff : p.rdh.offsetNext = 64 + p.payload.length := hp.off
+    have hsz := payloadSize_eq p hp
+    simp only
+    by_cases hskip : cfg.skipPayload = true
+    · have hseek : seekOk cfg.src s1 p.rdh.offsetNext = true := by
+        cases cfg.src <;> simp [seekOk, h2, hoff]
+      simp only [hskip, ↓reduceIte, hseek, List.append_nil]
+      exact hb
+    · have hlen : ¬ (p.payload.length + ((bytesOf post).length + tail.length) < p.payload.length) := by omega
+      simp only [hskip, Bool.false_eq_true, ↓reduceIte, h2, hsz, List.length_append, hlen]
+      exact hb
+
+theorem scanLoop_benign (V : Nat → Bool) (cfg : ScanCfg) (tail : Bytes) (htail : tail.length < 64) :
+    ∀ (n : Nat) (ps : List RawPkt), ps.length ≤ n →
+    (∀ p ∈ ps, WF p) → (∀ p ∈ ps, V p.rdh.systemId = true) →
+    ∀ (s : ScanSt) (pk : List Packet) (ms : List InMsg), s.rest = bytesOf ps ++ tail →
+      AllBenign V ms → AllBenign V (scanLoop cfg s pk ms).msgs := by
+  intro n
+  induction n with
+  | zero =>
+    intro ps hlen hwf hV s pk ms hs hms
+    have : ps = [] := List.eq_nil_of_length_eq_zero (by omega)
+    subst this
+    have h := loadCdp_spec cfg [] hwf tail htail s hs
+    have hb := loadCdp_benign V cfg [] hwf hV tail htail s hs
+    simp only [firstMatch] at h
+    obtain ⟨e, he, rfl⟩ := h
+    rw [scanLoop]
+    generalize hl : loadCdp cfg s = r at he hb
+    obtain ⟨s1, m, res⟩ := r
+    simp only at he
+    subst he
+    exact hms.append hb
+  | succ n ih =>
+    intro ps hlen hwf hV s pk ms hs hms
+    have h := loadCdp_spec cfg ps hwf tail htail s hs
+    have hb := loadCdp_benign V cfg ps hwf hV tail htail s hs
+    generalize hfm : firstMatch cfg.filter s.pos ps = fm at h
+    rw [scanLoop]
+    generalize hl : loadCdp cfg s = r at h hb
+    obtain ⟨s1, m, res⟩ := r
+    cases fm with
+    | none =>
+      simp only at h
+      obtain ⟨e, he, rfl⟩ := h
+      subst he
+      exact hms.append hb
+    | some x =>
+      obtain ⟨o', p, post⟩ := x
+      simp only at h
+      obtain ⟨h1, h2, h3⟩ := h
+      subst h1
+      have hlt := firstMatch_bytes_len cfg.filter ps hwf s.pos o' p post hfm
+      have hguard : s1.rest.length < s.rest.length := by
+        rw [h2, hs]; simp only [List.length_append]; omega
+      simp only [hguard, ↓reduceIte]
+      have hpl := firstMatch_post_len cfg.filter s.pos ps o' p post hfm
+      have hwf' : ∀ q ∈ post, WF q := fun q hq => hwf q ((firstMatch_mem _ ps _ _ _ _ hfm).2 q hq)
+      have hV' : ∀ q ∈ post, V q.rdh.systemId = true := fun q hq => hV q ((firstMatch_mem _ ps _ _ _ _ hfm).2 q hq)
+      exact ih post (by omega) hwf' hV' s1 _ _ h2 (hms.append hb)
+
 end C03
 end FastPasta
